@@ -576,16 +576,18 @@ def run_op(spec):
 # ------------------------------------------------------------------------------------------- truncation
 import re  # noqa: E402
 
-TOKEN = re.compile(r"<\?.*?\?>|<!--.*?-->|<[^>]*>|[^<]+", re.S)
+TOKEN = re.compile(r"<\?.*?\?>|<!--.*?-->|<!\[CDATA\[.*?\]\]>|<[^>]*>|[^<]+", re.S)
 
 
 def tokens_of(text):
-    """(model tokens, byte offset after each source token) for our own writer's output"""
+    """(model tokens, byte offset after each source token) for our own writer's output (+ the harness' additions)"""
     toks, ends = [], []
     for m in TOKEN.finditer(text):
         t = m.group(0)
         if t.startswith("<?") or t.startswith("<!--"):
             new = []
+        elif t.startswith("<![CDATA["):
+            new = [["T", "t"]]
         elif t.startswith("</"):
             new = [["C", t[2:-1].strip()]]
         elif t.startswith("<"):
@@ -598,23 +600,77 @@ def tokens_of(text):
     return toks, ends
 
 
+def augment(text):
+    """token classes our writer never emits: XML declaration, comment, CDATA section, numeric character references"""
+    i = text.index(">", text.index("<neuroml")) + 1
+    text = text[:i] + "\n    <!-- comment with \u00b5 and \u20ac -->" + text[i:]
+    text = text.replace("@@CD@@", "<![CDATA[a<b \u00b5 ]]>").replace("@@NC@@", "&#181;&#x20AC;")
+    return '<?xml version="1.0" encoding="UTF-8"?>\n' + text
+
+
+CLASSES = [
+    ("xml-declaration", rb"<\?xml.*?\?>"), ("comment", rb"<!--.*?-->"), ("cdata", rb"<!\[CDATA\[.*?\]\]>"),
+    ("closing-tag", rb"</[^>]*>"), ("entity-reference", rb"&#?\w+;"),
+]
+
+
+def class_spans(data):
+    """byte spans per token class (first, second and last instance of each)"""
+    spans = {}
+    for name, rx in CLASSES:
+        spans[name] = [(m.start(), m.end()) for m in re.finditer(rx, data, re.S)]
+    tn, an, av = [], [], []
+    for m in re.finditer(rb"<([A-Za-z_][\w:.-]*)([^<>]*)>", data):
+        tn.append((m.start(), m.end(1)))
+        for a in re.finditer(rb'\s([\w:.-]+)\s*=\s*"([^"]*)"', m.group(2)):
+            base = m.start(2)
+            an.append((base + a.start(1), base + a.end(1)))
+            av.append((base + a.start(2) - 1, base + a.end(2) + 1))
+    spans["tag-name"], spans["attribute-name"], spans["attribute-value"] = tn, an, av
+    # attribute values and text that hold multi-byte characters are the interesting instances: keep them too
+    out = {}
+    for k, v in spans.items():
+        pick = v[:2] + v[-1:] + [sp for sp in v if any(b >= 0x80 for b in data[sp[0]:sp[1]])][:3]
+        out[k] = sorted(set(pick))
+    return out
+
+
 def run_truncate(spec):
     tmp = tempfile.mkdtemp(prefix="c08t_")
     try:
         INJ.active = False
         doc = build_doc(spec["doc"])
+        for n in doc.networks:
+            n.notes = doc.notes
         full = os.path.join(tmp, "full.nml")
         writers.NeuroMLWriter.write(doc, full)
+        if spec.get("augment"):
+            text = augment(open(full, encoding="utf-8").read())
+            with open(full, "w", encoding="utf-8") as f:
+                f.write(text)
         data = open(full, "rb").read()
         text = data.decode()
         ref = jdump(loaders.NeuroMLLoader.load(full))
         end_root = data.rstrip().__len__()
         want = spec.get("offsets", "all")
-        offs = list(range(0, len(data))) if want == "all" else sorted(set(list(range(0, len(data), int(want))) +
-                                                                         [1, end_root - 1, end_root - 2, len(data) - 1]))
+        classes = {}
+        inside_mb = [k for k in range(len(data)) if 0x80 <= data[k] <= 0xBF]  # a cut here ends inside a character
+        mb_sizes = sorted({len(ch.encode()) for ch in text if ord(ch) > 127})
+        if want == "all":
+            offs = list(range(0, len(data)))
+        else:
+            offs = set(range(0, len(data), int(want))) | {1, end_root - 1, end_root - 2, len(data) - 1} | set(inside_mb)
+            for cname, sps in class_spans(data).items():
+                for a, b in sps:
+                    offs |= set(range(a, b + 1))
+            offs = sorted(offs)
+        for cname, sps in class_spans(data).items():
+            classes[cname] = sum(1 for k in offs for a, b in sps if a < k < b)
+        classes["inside-multibyte-character"] = sum(1 for k in offs if k in set(inside_mb))
         offs = [k for k in offs if 0 <= k < len(data)]
         bad, rejected, equal = [], 0, 0
         cut = os.path.join(tmp, "cut.nml")
+        mbset = set(inside_mb)
         for k in offs:
             with open(cut, "wb") as f:
                 f.write(data[:k])
@@ -625,21 +681,32 @@ def run_truncate(spec):
                 if got == ref and k >= end_root:
                     equal += 1
                 else:
-                    bad.append({"offset": k, "of": len(data), "via": "NeuroMLLoader.load", "loaded": got[:300]})
+                    bad.append({"offset": k, "of": len(data), "via": "NeuroMLLoader.load", "loaded": got[:300],
+                                "inside_multibyte_character": k in mbset, "around": repr(data[max(0, k - 12):k + 4])})
             except BaseException:  # noqa: BLE001
                 rejected += 1
-            # the string entry point (only when the prefix still looks like a string of XML to the loader)
-            s = data[:k].decode(errors="ignore")
-            body = s[s.index("<neuroml"):] if "<neuroml" in s else None
-            if body and k % 7 == 0:
+            # the other file entry point and the string entry point
+            if k % 5 == 0 or k in mbset:
                 try:
                     with contextlib.redirect_stderr(io.StringIO()):
-                        d = loaders.read_neuroml2_string(body, base_path=tmp)
+                        d = loaders.read_neuroml2_file(cut)
                     got = jdump(d)
                     if not (got == ref and k >= end_root):
-                        bad.append({"offset": k, "of": len(data), "via": "read_neuroml2_string", "loaded": got[:300]})
+                        bad.append({"offset": k, "of": len(data), "via": "read_neuroml2_file", "loaded": got[:300],
+                                    "inside_multibyte_character": k in mbset})
                 except BaseException:  # noqa: BLE001
                     pass
+                s = data[:k].decode(errors="ignore")
+                body = s[s.index("<neuroml"):] if "<neuroml" in s else None
+                if body:
+                    try:
+                        with contextlib.redirect_stderr(io.StringIO()):
+                            d = loaders.read_neuroml2_string(body, base_path=tmp)
+                        got = jdump(d)
+                        if not (got == ref and k >= end_root):
+                            bad.append({"offset": k, "of": len(data), "via": "read_neuroml2_string", "loaded": got[:300]})
+                    except BaseException:  # noqa: BLE001
+                        pass
         toks, ends = tokens_of(text)
         # token-boundary cuts: (number of model tokens kept, did the real loader reject the byte prefix)
         tb = []
@@ -652,8 +719,9 @@ def run_truncate(spec):
                 tb.append([ntok, False])
             except BaseException:  # noqa: BLE001
                 tb.append([ntok, True])
-        return {"doc": spec["doc"], "size": len(data), "end_root": end_root, "offsets": len(offs), "rejected": rejected,
-                "equal": equal, "bad": bad[:5], "nbad": len(bad), "tokens": toks, "token_cuts": tb}
+        return {"doc": spec["doc"], "augment": bool(spec.get("augment")), "size": len(data), "end_root": end_root,
+                "offsets": len(offs), "rejected": rejected, "equal": equal, "bad": bad[:5], "nbad": len(bad), "tokens": toks,
+                "token_cuts": tb, "class_offsets": classes, "multibyte_sizes": mb_sizes}
     finally:
         shutil.rmtree(tmp, ignore_errors=True)
 
